@@ -28,6 +28,7 @@ Definition byte_ok (b : N) : bool := b <? 256.
 Definition bytes_ok (l : bytes) : bool := forallb byte_ok l.
 
 Definition b2n (b : bool) : N := if b then 1 else 0.
+Definition is_nil {A} (l : list A) : bool := match l with [] => true | _ => false end.
 
 Fixpoint list_eqb {A} (eq : A -> A -> bool) (a b : list A) : bool :=
   match a, b with
